@@ -43,7 +43,7 @@ var $ifaceKeyFor = x => {
         return 'nil';
     }
     var c = x.constructor;
-    return c.string + '$' + c.keyFor(x.$val);
+    return c.id + '$' + c.keyFor(x.$val);
 };
 
 var $identity = x => { return x; };
